@@ -68,6 +68,8 @@ class GetService(DPWSPortTypeBase):
 
                 self._logger.debug('_on_get_md_state requested Handles:{} found {} states', requested_handles,
                                    len(state_containers))
+            # a state is returned only once, also if it is selected by more than one requested handle
+            state_containers = list({id(st): st for st in state_containers}.values())
             # read the version while the lock is still held: it must match the collected states
             mdib_version_group = self._mdib.mdib_version_group
 
